@@ -491,4 +491,22 @@ theorem reset_committed_step_counterexample :
     (runAll Cfg.current ([.c .run] ++ List.replicate 8 (.t true))).pc = PC.aboutStep ∧
     countSteps ((runAll Cfg.current demoReset).hist.takeWhile (fun e => decide (e ≠ Ev.cmdReset))) = 1 := by decide
 
+/-! ## A consumer of the step number: `SIS::filtering_step()` -/
+
+/-- `SIS::filtering_step()` predicts unless `step_number() == 0` (`sisPredicts`).  Along every
+schedule the steps that skip the prediction are exactly the first steps after an initialisation:
+the step that starts with number `k` does not predict iff the Init/Step event before it is an
+`Init` (with `step_number_in_step`: `k` is what `step_number()` returns while the step runs). -/
+theorem sis_prediction_skipped_exactly_after_init (cfg : Cfg) (as : List Act) (k : Nat)
+    (later earlier : List Ev) (h : (runAll cfg as).hist = later ++ Ev.stepStart k :: earlier) :
+    sisPredicts k = false ↔ (workEvents earlier).head? = some Ev.init := by
+  rw [epoch_shape_pred cfg as k later earlier h]
+  by_cases hk : k = 0
+  · subst hk; simp [sisPredicts]
+  · simp [sisPredicts, hk]
+
+/-- non-vacuity: in `demoRun` the first step does not predict, the second does -/
+example : (runAll Cfg.current demoRun).hist.filter isStep = [Ev.stepStart 1, Ev.stepStart 0] ∧
+    sisPredicts 0 = false ∧ sisPredicts 1 = true := by decide
+
 end BFL.Life
